@@ -70,6 +70,13 @@ theorem placement_no_noise (ns : Bool) (be : Backend) (np : Nat) (op : COp) (k :
 theorem trace_noise_off (be : Backend) (np : Nat) (ops : List COp) :
     compileTrace false be np ops = .ok ((List.range ops.length).map Act.gate) := compileTrace_off be np ops
 
+/-- **whole circuits, noise on**: for a circuit of supported operations (one-qubit gates, CNOT, CZ with additive noise) the
+    compile trace of either backend is, operation by operation, [noise asking for "before"] ++ [gate] ++ [noise asking for
+    "after"] — every attached non-`NoNoise` noise exactly once, on the qubit it addresses, on the requested side -/
+theorem trace_noise_on (be : Backend) (np : Nat) (ops : List COp) (hs : ∀ op ∈ ops, Supported op) :
+    compileTrace true be np ops = .ok (Graphiq.MixDM.wantedAll np ops 0) :=
+  Graphiq.MixDM.traceGo_supported be np ops 0 hs
+
 /-! ## (b) Weight bookkeeping of the stabilizer mixture, every circuit -/
 
 /-- **Σ p_k = ∏ (1 − loss_j).**  If `StabilizerCompiler.compile` returns, the placement tree produced a trace and the total
